@@ -233,6 +233,28 @@ def c10(tier, seed, replay=None):
         "and an optional injected rule failure per call; distinct_nontrivial counts distinct (graph, session, builtin?) with >= 3 nodes")
 
 
+def c19_sessions(tier, seed):
+    """history part of C19 at the level of one VJP function: a call abandoned by a raising rule (at the 1st, 2nd, 3rd or 4th rule
+    application) must not influence the next calls of the same function"""
+    quick = tier == "quick"
+
+    def decorate(cases, rng):
+        out = []
+        for i, c in enumerate(cases):
+            for f in ((1, 2) if quick else (1, 2, 3, 4)):
+                d = dict(c)
+                d["session"] = [{"g": rng.choice([1, 3]), "fault": f}, {"g": rng.choice([1, 3]), "fault": 0}, {"g": 3, "fault": f + 1}, {"g": 1, "fault": 0}]
+                d["api"] = (i + seed) % 6
+                d["builtin"] = False
+                d["jac"] = (i + f) % 5 == 0
+                out.append(d)
+        return out
+    models = [dict(N=3, MaxAr=2, WithConst=True, KindMode="edge", MaxCalls=3)]
+    sets = [dict(N=3, MaxAr=3, KindMode="node"), dict(N=6, Family="share")] + ([] if quick else [dict(N=4, MaxAr=2, KindMode="node")])
+    return _run("C19", tier, seed, models, [], sets, decorate, "", ASSUME,
+                "sessions of one VJP function: abandoned call, complete call, abandoned call, complete call", write=False)
+
+
 def c11(tier, seed, replay=None):
     if replay:
         return _replay("C11", replay)
